@@ -127,8 +127,8 @@ class C04(E2EProp):
     id = "C04"
     cone = ["Properties/C04.vo"]
     prop_file = "Properties/C04.v"
-    theorems = ["C04_escape_decodable", "C04_escape_injective", "C04_specials_only_in_escape_forms", "C04_escape_is_rune_by_rune", "C04_escape_compositional"]
-    partial = ["C04_quiet_balanced (balance half): stated in DESIGN; tied by S-e2e bytes and searched by the TeX balance oracle; proof on the model pending"]
+    theorems = ["C04_escape_decodable", "C04_escape_injective", "C04_specials_only_in_escape_forms", "C04_escape_is_rune_by_rune", "C04_escape_compositional", "C04_escaped_text_is_brace_neutral", "C04_headers_balanced_partial", "C04_inline_titles_balanced"]
+    partial = ["C04 balance half is proved for the sub-language of Proofs/FragHL.v (text, Bm/Em/Sm, P with title, Bd/Ed at any depth, headers, Tc; fragment mode) against the brace machine of Proofs/TokL.v, which does not read environments; lists, tables, verse, links, images, user macros and the standalone preamble are tied by S-e2e bytes and searched by the TeX balance oracle"]
     oracle = staticmethod(oracles.c04_oracle)
     assumptions = ["escape.LaTeX = strings.Replacer over latexEscapes = Repl.enc latex_table (translator checks the shape of escape.go; stream S-esc-latex)",
                    "processor + LaTeX exporter = Model/Loop.compile_source (stream S-e2e-latex)"]
@@ -299,8 +299,8 @@ class C01(E2EProp):
     id = "C01"
     cone = ["Properties/C01.vo"]
     prop_file = "Properties/C01.v"
-    theorems = ["D1_unclosed_table", "D2_mom_fontstack", "D3_user_macro_named_Sm"]
-    partial = ["C01_full (no panic site reachable): stated; the model has a partial primitive at every Go panic site and agrees with the implementation on the exit class of every case (S-e2e); invariant proof pending"]
+    theorems = ["C01_blocks_no_panic_partial", "C01_source_no_panic_partial", "C01_dispatch_table_agrees", "C01_dispatch_domain", "C01_option_tables_agree", "C01_source_constants_agree", "D1_unclosed_table", "D2_mom_fontstack", "D3_user_macro_named_Sm"]
+    partial = ["C01_full (no panic site reachable) is proved for the sub-language of Proofs/FragH.v (XHTML fragment mode: text, Bm/Em/Sm, P, D, Lk, Bd/Ed, headers with pass agreement, Tc) and every world and positive fuel; beyond it the model has a partial primitive at every Go panic site and agrees with the implementation on the exit class of every case (S-e2e)"]
     oracle = staticmethod(oracles.c01_oracle)
     assumptions = ["Model/Loop.compile_source is the implementation for the four fragment formats and the XHTML standalone, multi-file and EPUB modes (S-e2e: bytes, diagnostics and exit class)",
                    "failures that are not expression-level panics (memory exhaustion, Go stack limit) are outside the model"]
@@ -321,8 +321,8 @@ class C02(E2EProp):
     id = "C02"
     cone = ["Properties/C02.vo"]
     prop_file = "Properties/C02.v"
-    theorems = ["D4_D5_D6_D16_D17_D18_D19_D21_D22", "D7_known_refuted"]
-    partial = ["C02_full: stated against Spec/Xml.wf_xml; balance invariant on the model pending (prototype proved it for text/Bm/Em)"]
+    theorems = ["C02_headers_balanced_partial", "C02_inline_titles_balanced", "C02_toc_writer_balanced", "C02_text_keeps_invariant", "C02_Bm_keeps_invariant", "C02_Em_keeps_invariant", "C02_Sm_keeps_invariant", "C02_P_keeps_invariant", "D4_D5_D6_D16_D17_D18_D19_D21_D22", "D7_known_refuted"]
+    partial = ["C02_full is stated against Spec/Xml.wf_xml; proved: element balance (tag machine of Proofs/Tok.v, weaker than XML well-formedness) of the whole output for the sub-language of Proofs/FragH.v in fragment mode, of processInlineMacros, of the TOC writer (XHTML, EPUB nav, NCX) and of the EPUB package files (C14); lists, tables, verse, images, cross-references, user macros and the standalone/multi-file/EPUB page skeletons are tied by S-e2e bytes and searched by the strict XML oracle; the list-of-X writer is the known finding D7"]
     oracle = staticmethod(oracles.c02_oracle)
     assumptions = ["XHTML/EPUB exporter = Model/Xhtml.v through Model/Loop.compile_source (S-e2e bytes of every generated file)"]
 
@@ -337,8 +337,8 @@ class C05(E2EProp):
     id = "C05"
     cone = ["Properties/C05.vo"]
     prop_file = "Properties/C05.v"
-    theorems = ["C05_examples"]
-    partial = ["C05_links: stated; tied by S-e2e (bytes of every file incl. nav, NCX, OPF), searched by the link oracle; proof pending"]
+    theorems = ["C05_toc_entries_refer_to_their_header_partial", "C05_examples"]
+    partial = ["C05_links on the bytes: stated; proved on the data of the model for the sub-language of Proofs/FragH.v (entries numbered in document order, the i-th refers to #s<i>, the id of the i-th header); labels, figures, tables, poems, multi-file names, nav/NCX/OPF are tied by S-e2e and searched by the link oracle"]
     oracle = staticmethod(oracles.c05_oracle)
     FAM = [".Pt P", ".Ch C", ".Ch -id c1 D", ".Sh S", ".Sh -id s1 L", ".Ss s", ".Tc", ".Tc -mini", ".Sx s1", ".Sx c1", ".Sx f1", ".Im -id f1 i.png cap", ".Im i.png .", ".Im i.png c2",
            ".Tc -lof", ".Bl -t table -id t1 T", ".It a", ".El", ".Sx t1", ".Sm -id m1 w", ".Sx m1", ".Bl -t verse -id p1 V", "t"]
@@ -358,9 +358,8 @@ class C06(E2EProp):
     id = "C06"
     cone = ["Properties/C06.vo"]
     prop_file = "Properties/C06.v"
-    theorems = ["C06_counters", "C06_levels_ordered", "C06_toc_nested"]
-    partial = ["C06_toc_entries (each TOC lists exactly the selected headers with the header's own number and title): tied by S-e2e and searched by the numbering oracle; proof pending",
-               "C06_toc_nested is proved for the nesting loop (Model/TocW.write_toc_fixed); its identity with Model/Xhtml.write_toc's loop is by S-e2e"]
+    theorems = ["C06_counters", "C06_levels_ordered", "C06_toc_nested", "C06_toc_writer_balanced", "C06_model_counters_are_the_source", "C06_model_levels_are_the_source", "C06_model_reset_is_the_source"]
+    partial = ["C06_toc_entries (each TOC lists exactly the selected headers with the header’s own number and title): tied by S-e2e and searched by the numbering oracle; proved: counters/levels (translated source = model), TOC writer nesting on the real strings"]
     HDR = [".Pt P", ".Ch C", ".Sh S", ".Ss s", ".Pt -nonum p", ".Ch -nonum c", ".Sh -nonum h", ".Ss -nonum u"]
     TC = ["", ".Tc", ".Tc -mini", ".Tc -summary", ".Tc -mini -summary", ".Tc -nonum"]
 
@@ -995,8 +994,8 @@ class C14(E2EProp):
     id = "C14"
     cone = ["Properties/C14.vo"]
     prop_file = "Properties/C14.v"
-    theorems = ["C14_examples"]
-    partial = ["C14_tree / C14_zip: stated; the output tree is tied by S-e2e-epub (every file's bytes), the archive by stream S-zip on the implementation; proof pending; the zip writer is not yet in the model"]
+    theorems = ["C14_container_balanced", "C14_nav_balanced", "C14_ncx_balanced", "C14_package_balanced", "C14_examples"]
+    partial = ["C14_tree / C14_zip: stated; proved: the four generated XML files are balanced for every book (tag machine of Proofs/Tok.v); that the manifest lists exactly the files of the tree and the archive order are tied by S-e2e-epub (the bytes of every file) and S-zip on the implementation; the cover page and a user stylesheet are outside the model (implementation-only stream with the manifest/spine oracle)"]
     FAM = [".Pt P", ".Ch C", ".Ch -id c1 D", ".Sh S", ".Im i.png", ".Im img.png cap", "t", ".Tc", ".Ch -nonum N"]
 
     @staticmethod
